@@ -81,6 +81,105 @@ def _normalise(tree):
                 not isinstance(holder.comparators[0], ast.Constant):
             holder.left, holder.comparators[0] = \
                 holder.comparators[0], holder.left
+    # ``x in (None, 1)`` over a short display of constants, x a plain name or
+    # attribute chain, reads ``x is None or x == 1`` (``not in``: the
+    # conjunction of the negations)
+    import copy as _copy
+
+    def _pure_chain(e):
+        while isinstance(e, ast.Attribute):
+            e = e.value
+        return isinstance(e, ast.Name)
+
+    class _Membership(ast.NodeTransformer):
+        def visit_Compare(self, node):
+            self.generic_visit(node)
+            if len(node.ops) != 1 or not isinstance(
+                    node.ops[0], (ast.In, ast.NotIn)) or \
+                    not _pure_chain(node.left):
+                return node
+            disp = node.comparators[0]
+            if not isinstance(disp, (ast.Tuple, ast.List, ast.Set)) or \
+                    not 1 <= len(disp.elts) <= 4 or not all(
+                        isinstance(x, ast.Constant) and
+                        not isinstance(x.value, float) for x in disp.elts) \
+                    or not any(x.value is None for x in disp.elts):
+                # (only where None is a member: that is where the reading
+                # ``is None`` matters to the engines)
+                return node
+            pos = isinstance(node.ops[0], ast.In)
+            parts = []
+            for c in disp.elts:
+                if c.value is None:
+                    op = ast.Is() if pos else ast.IsNot()
+                else:
+                    op = ast.Eq() if pos else ast.NotEq()
+                parts.append(ast.copy_location(ast.Compare(
+                    left=_copy.deepcopy(node.left), ops=[op],
+                    comparators=[c]), node))
+            if len(parts) == 1:
+                return parts[0]
+            return ast.copy_location(ast.BoolOp(
+                op=ast.Or() if pos else ast.And(), values=parts), node)
+    _Membership().visit(tree)
+
+    # struct.unpack(F, x[a:a + K]) with K the size of the constant format F
+    # reads struct.unpack_from(F, x, a)  (x[:K]: no offset): the same values,
+    # and a struct.error in both when fewer than K bytes are there
+    import struct as _struct
+
+    class _UnpackSlice(ast.NodeTransformer):
+        def visit_Call(self, node):
+            self.generic_visit(node)
+            f = node.func
+            if not (isinstance(f, ast.Attribute) and f.attr == "unpack" and
+                    isinstance(f.value, ast.Name) and
+                    f.value.id == "struct" and len(node.args) == 2 and
+                    not node.keywords and
+                    isinstance(node.args[0], ast.Constant) and
+                    isinstance(node.args[0].value, (str, bytes)) and
+                    isinstance(node.args[1], ast.Subscript) and
+                    isinstance(node.args[1].slice, ast.Slice) and
+                    node.args[1].slice.step is None):
+                return node
+            try:
+                size = _struct.calcsize(node.args[0].value)
+            except _struct.error:
+                return node
+            sl = node.args[1].slice
+            lo, hi = sl.lower, sl.upper
+            off = None
+
+            def is_k(e):
+                return isinstance(e, ast.Constant) and e.value == size and \
+                    not isinstance(e.value, bool)
+            if hi is None:
+                return node
+            if lo is None or (isinstance(lo, ast.Constant) and
+                              lo.value == 0):
+                if not is_k(hi):
+                    return node
+            elif isinstance(lo, ast.Constant) and isinstance(
+                    lo.value, int) and isinstance(hi, ast.Constant) and \
+                    isinstance(hi.value, int) and \
+                    hi.value - lo.value == size and lo.value > 0:
+                off = lo
+            elif isinstance(hi, ast.BinOp) and isinstance(hi.op, ast.Add) \
+                    and ((ast.dump(hi.left) == ast.dump(lo) and
+                          is_k(hi.right)) or
+                         (ast.dump(hi.right) == ast.dump(lo) and
+                          is_k(hi.left))):
+                off = lo
+            else:
+                return node
+            new = ast.Call(
+                func=ast.Attribute(value=f.value, attr="unpack_from",
+                                   ctx=ast.Load()),
+                args=[node.args[0], node.args[1].value] + (
+                    [off] if off is not None else []), keywords=[])
+            return ast.copy_location(new, node)
+    _UnpackSlice().visit(tree)
+    ast.fix_missing_locations(tree)
     # ``while True:`` whose first statement is ``if <t>: break`` reads as
     # ``while not <t>:`` (no else clause on either)
     for w in ast.walk(tree):
